@@ -23,20 +23,24 @@ CLAIMED["C01"] = dict(
         "from_tokens, split_tokens_by_pipes, drain_env_tokens and the from_line glue: for every command word and every list of "
         "single- or double-quoted arguments (any texts, any number, any spacing) the line is cut into exactly those tokens "
         "(C01_tokenize), planned as ONE foreground command whose words are the written texts with no pipe / background / "
-        "redirection / assignment (C01_plan_quoted, C01_post_passes) and never split by the list splitter (C01_split); "
+        "redirection / assignment -- C01_plan_full: text in, plan out through the REAL expansion passes of Model/Expand.v, for every world; "
+        "C01_plan_quoted, C01_post_passes) and never split by the list splitter (C01_split); "
         "induction over arguments and characters, closed under the global context. PARTIAL: the backslash-escaped style is not "
         "proved through the tokenizer; there the full statement is refuted (C01_esc_refuted; recorded classes esc-expanded, "
         "esc-amp-last, esc-trailing-blank) and the rest is carried by the correspondence check: exhaustive short strings through "
         "the real parse_line / redirection parser vs the extracted model, the real from_line on the property's whole domain "
         "(3 styles x all texts up to length 2 (3) x 6 positions + random) with the property oracle on the implementation's plan, "
         "and argv seen by a helper through cicada -c.",
-   note="Trusted: Coq kernel, extraction, drivers, tools/tables2coq.py (Unicode Nd table). The expansion passes enter "
-        "C01_plan_quoted as a parameter required to be inert on quoted tokens (their model is C10-C12's); in the correspondence "
-        "layer the implementation's own expansion output is used. execve argument construction only exercised by L2.",
+   note="Trusted: Coq kernel, extraction, drivers, tools/tables2coq.py (Unicode Nd table), tools/regex2coq.py (regex ASTs of the "
+        "expansion gates). External behaviour (variables, aliases, glob, command output) is a World record of oracles the theorems "
+        "quantify over. In correspondence layer L1c the implementation's own expansion output feeds the model planner (the expansion "
+        "model is compared separately by C10-C13). execve argument construction only exercised by L2.",
    technique="Coq proof (state-machine invariants by induction) + extraction-based differential correspondence",
    design="6/C01")
 
 NOT_APPLICABLE = {}
+# checks built but temporarily not registered (model being brought in line with a repaired /repo)
+HOLD = set(os.environ.get('VERIF_HOLD', '').split(',')) - {''}
 
 
 def from_notes(p):
@@ -62,7 +66,7 @@ def from_notes(p):
 
 
 for _p in ["C02", "C04", "C05", "C06", "C07", "C08", "C09", "C10", "C11", "C12", "C13", "C14", "C15", "C16", "C17", "C18", "C19", "C20"]:
-    if _p not in CLAIMED and os.path.exists(os.path.join(VERIF, "drive", _p.lower() + ".py")) \
+    if _p not in CLAIMED and _p not in HOLD and os.path.exists(os.path.join(VERIF, "drive", _p.lower() + ".py")) \
             and os.path.exists(os.path.join(VERIF, "coq", "theories", "Properties", _p + ".v")):
         _e = from_notes(_p)
         if _e:
@@ -94,7 +98,7 @@ def main():
             "guard": "cicada_verif",
             "enable": "RUSTFLAGS=\"--cfg cicada_verif\" (set by drive/common.py and harness/.cargo/config.toml)",
             "baseline_off_cmd": "cd /repo && cargo test --workspace --no-fail-fast --offline",
-            "source_commits": ["c75e109"],
+            "source_commits": ["c75e109", "303b975"],
             "add_only": True,
         },
         "engines": [{"name": "coq-model+correspondence", "path": "/verif/check",
